@@ -120,12 +120,21 @@ static mut CPU: Cpu = Cpu {
 
 #[allow(static_mut_refs)]
 pub fn cpu() -> &'static mut Cpu {
+    // The signal handler changes CPU behind the compiler's back (the crate's asm blocks are marked
+    // `nomem`): a singlethread fence forces every later read to be a real load.
+    fence();
     unsafe { &mut *core::ptr::addr_of_mut!(CPU) }
+}
+
+#[inline(always)]
+pub fn fence() {
+    core::sync::atomic::compiler_fence(Ordering::SeqCst);
 }
 
 impl Cpu {
     /// Reset everything a case can observe.
     pub fn reset(&mut self) {
+        fence();
         self.cr = [0; 16];
         self.dr = [0; 8];
         self.msr_len = 0;
@@ -143,26 +152,42 @@ impl Cpu {
         self.unexpected = 0;
         self.set_if_overlay(false);
         x86_64::registers::xcontrol::verif_hooks::ENABLED.store(false, Ordering::Relaxed);
+        fence();
+    }
+    pub fn set_cr(&mut self, n: u8, v: u64) {
+        self.cr[(n & 15) as usize] = v;
+        fence();
+    }
+    pub fn set_dr(&mut self, n: u8, v: u64) {
+        self.dr[(n & 7) as usize] = v;
+        fence();
     }
     pub fn clear_log(&mut self) {
+        fence();
         self.log_len = 0;
         self.log_overflow = false;
+        fence();
     }
     pub fn log(&self) -> &[Trap] {
+        fence();
         &self.log[..self.log_len]
     }
     pub fn take_log(&mut self) -> Vec<Trap> {
+        fence();
         let v = self.log[..self.log_len].to_vec();
         self.clear_log();
         v
     }
     pub fn msr_get(&self, idx: u32) -> Option<u64> {
+        fence();
         self.msr[..self.msr_len].iter().find(|(i, _)| *i == idx).map(|(_, v)| *v)
     }
     pub fn msr_set(&mut self, idx: u32, val: u64) {
+        fence();
         for e in self.msr[..self.msr_len].iter_mut() {
             if e.0 == idx {
                 e.1 = val;
+                fence();
                 return;
             }
         }
@@ -170,12 +195,15 @@ impl Cpu {
             self.msr[self.msr_len] = (idx, val);
             self.msr_len += 1;
         }
+        fence();
     }
     pub fn push_in(&mut self, v: u64) {
+        fence();
         if self.inq_len < INQ_CAP {
             self.inq[(self.inq_head + self.inq_len) % INQ_CAP] = v;
             self.inq_len += 1;
         }
+        fence();
     }
     fn pop_in(&mut self) -> u64 {
         if self.inq_len == 0 {
@@ -193,6 +221,7 @@ impl Cpu {
         self.if_overlay = on;
         MASK.store(if on { 1 << 9 } else { 0 }, Ordering::Relaxed);
         VALUE.store(if self.if_flag { 1 << 9 } else { 0 }, Ordering::Relaxed);
+        fence();
     }
     pub fn set_if(&mut self, v: bool) {
         use x86_64::registers::rflags::verif_hooks::VALUE;
@@ -200,6 +229,7 @@ impl Cpu {
         if self.if_overlay {
             VALUE.store(if v { 1 << 9 } else { 0 }, Ordering::Relaxed);
         }
+        fence();
     }
     /// Supply the emulated XCR0 to the crate's `xgetbv` wrapper (hook H4).
     pub fn set_xcr0(&mut self, v: u64) {
@@ -207,6 +237,7 @@ impl Cpu {
         self.xcr0 = v;
         VALUE.store(v, Ordering::Relaxed);
         ENABLED.store(true, Ordering::Relaxed);
+        fence();
     }
     fn push_log(&mut self, t: Trap) {
         if self.log_len < LOG_CAP {
